@@ -6,6 +6,7 @@
    faults inside assembly and the Go scheduler are run-time matters. *)
 From Coq Require Import List Arith.
 From SJ Require Import Model.Base Model.RefTables Model.Ring Proofs.RingProofs Tie.PipelineTie.
+From SJ Require Import Model.Iter Model.Walk Model.Marshal Proofs.ApiTotalFinal.
 Open Scope N_scope.
 
 (* the full statement on the model: no Crash / OutOfFuel outcome of parsing *)
@@ -48,3 +49,20 @@ Print Assumptions C05_parse_and_parsend_total.
 Print Assumptions C05_parse_total.
 Print Assumptions C05_no_stuck_state_partial.
 Print Assumptions C05_slot_bounds_partial.
+
+(* the second sentence — on any returned result every traversal, lookup and
+   marshalling call terminates without panic — holds for ARBITRARY tapes, hence
+   for every result: plain traversal, MarshalJSON, FindElement from the root;
+   the typed accessors, Advance*, FindKey/FindPath, ForEach, As* from every
+   reachable iterator (ApiTotalFinal: advance_fine ... marshal_array_fine) *)
+Theorem C05_traversal_lookup_marshal_total : forall pj,
+  fine (walk_doc pj) /\ fine (marshal_iter pj (iter0 pj)) /\ forall path, fine (find_element pj (iter0 pj) path).
+Proof. intros pj. split; [apply walk_doc_fine|]. split; [apply marshal_doc_fine|apply find_element_doc_fine]. Qed.
+Definition C05_find_key_total := find_key_fine.
+Definition C05_find_path_total := find_path_fine.
+Definition C05_object_foreach_total := obj_foreach_fine.
+Definition C05_array_foreach_total := arr_foreach_fine.
+Definition C05_as_number_total := as_num_fine.
+Definition C05_as_string_total := as_string_fine.
+Definition C05_array_marshal_total := marshal_array_fine.
+Print Assumptions C05_traversal_lookup_marshal_total.
